@@ -1,4 +1,4 @@
-CONSTANTS Fns = {1, 2, 3} Uds = {1, 2} Types = {"ttx", "net"} Masks <- M2 MaxTop = 3 MaxNested = 2 FixUp = TRUE MaxProbe = 0 ResetOnActivate = TRUE
+CONSTANTS Fns = {1, 2, 3} Uds = {1} MaxTop = 3 MaxNested = 1 Types = {"ttx", "net"} Masks <- M2 FixUp = TRUE MaxProbe = 0 ResetOnActivate = TRUE
 SPECIFICATION GSpec
 CONSTRAINT Dump
 CHECK_DEADLOCK FALSE
